@@ -3,3 +3,4 @@ set -e
 cd /verif
 ./mkoverlay.sh c14
 go build -tags verif -overlay build/c14.overlay.json -o "$1" ./h/c14
+/verif/h/c14s/build.sh /verif/build/c14s
